@@ -135,8 +135,8 @@ class SubCheck:
     examples: Dict[str, int] = field(default_factory=lambda: {"quick": 200, "thorough": 4000})
     shards: Dict[str, int] = field(default_factory=lambda: {"quick": NCPU, "thorough": NCPU})
     steps: Dict[str, int] = field(default_factory=lambda: {"quick": 30, "thorough": 50})
-    case_timeout: float = 60.0
-    wall: Dict[str, float] = field(default_factory=lambda: {"quick": 240.0, "thorough": 3000.0})
+    case_timeout: float = 30.0
+    wall: Dict[str, float] = field(default_factory=lambda: {"quick": 150.0, "thorough": 3000.0})
     exhaustive_flag: bool = False
     seeds: Optional[Callable[[], List[bytes]]] = None  # atheris seed corpus
 
@@ -185,6 +185,10 @@ class ShardState:
         self.first_fail_time: Optional[float] = None
         self.shrink_budget = 25.0 if tier == "quick" else 120.0
         self.give_up = False
+        # the worker winds down by itself at its wall budget so that what it
+        # covered is reported; the parent only kills it as a last resort
+        self.deadline = time.time() + sub.wall.get(tier, 240.0)
+        self.out_of_time = False
 
     def _alarm(self, signum, frame):  # pragma: no cover - signal handler
         raise CaseTimeout()
@@ -192,6 +196,10 @@ class ShardState:
     def execute(self, case: Any, record: bool = True) -> None:
         """Run one case; raise Violation / HarnessError to the driver."""
         if self.give_up:
+            return
+        if time.time() > self.deadline:
+            self.give_up = True
+            self.out_of_time = True
             return
         if (
             self.first_fail_time is not None
@@ -202,6 +210,9 @@ class ShardState:
             return
         ctx = Ctx(self.prop, self.open)
         reset_library_state()
+        if os.environ.get("VF_TRACE"):
+            with open(f"/tmp/vf-trace-{os.getpid()}.json", "w") as f:
+                f.write(canon(case))
         old = signal.signal(signal.SIGALRM, self._alarm)
         signal.setitimer(signal.ITIMER_REAL, self.sub.case_timeout)
         try:
@@ -269,7 +280,7 @@ class ShardState:
             "failure": failure,
             "n_failing_cases": len(self.failures),
             "harness_error": self.harness_error,
-            "timeouts": self.timeouts,
+            "timeouts": self.timeouts + (1 if self.out_of_time else 0),
         }
 
 
@@ -369,6 +380,9 @@ def run_machine(state: ShardState, seed_value: int, n: int) -> None:
 
         @initialize(config=spec.config)
         def init(self, config):
+            if time.time() > state.deadline:
+                state.give_up = True
+                state.out_of_time = True
             if state.give_up or (
                 state.first_fail_time is not None
                 and time.time() - state.first_fail_time > state.shrink_budget
@@ -522,7 +536,7 @@ def run_subcheck_sharded(prop: str, sub: SubCheck, tier: str, base_seed: int, sc
         p.start()
         child.close()
         procs.append((p, parent))
-    deadline = time.time() + sub.wall.get(tier, 240.0)
+    deadline = time.time() + sub.wall.get(tier, 240.0) + sub.case_timeout + 30.0
     results = []
     killed = 0
     for p, parent in procs:
